@@ -161,6 +161,14 @@ class _Return(Exception):
         self.value, self.node = value, node
 
 
+class _Break(Exception):
+    pass
+
+
+class _Continue(Exception):
+    pass
+
+
 class Evaluator:
     """globals_: name -> python literal value (lists of words, dicts);
     funcs: set of module-level function names (evaluate to Sym);
@@ -537,10 +545,22 @@ class Evaluator:
             it = self.ev(st.iter, env)
             if it is OPAQUE or not isinstance(it, (list, tuple, dict)):
                 raise Unsupported('loop over undetermined value')
+            broke = False
             for v in list(it):
                 self.bind(st.target, v, env)
-                self.run_block(st.body, env)
-            self.run_block(st.orelse, env)
+                try:
+                    self.run_block(st.body, env)
+                except _Continue:
+                    continue
+                except _Break:
+                    broke = True
+                    break
+            if not broke:           # for/else: only when not left by break
+                self.run_block(st.orelse, env)
+        elif isinstance(st, ast.Break):
+            raise _Break()
+        elif isinstance(st, ast.Continue):
+            raise _Continue()
         elif isinstance(st, ast.Try):
             try:
                 self.run_block(st.body, env)
